@@ -74,14 +74,12 @@ def get_const_info(const_index, const_list):
     if const_list is not None:
         arg_val = const_list[const_index]
 
-    arg_repr = (
-        prefer_double_quote(repr(arg_val))
-        # (a Python 2 unicode constant prints with its u prefix: not a bare quoted string)
-        if isinstance(arg_val, str) and not isinstance(arg_val, UnicodeForPython3)
-        else better_repr(arg_val)
-        if isinstance(arg_val, (types.CodeType, set, frozenset))
-        else repr(arg_val)
-    )
+    try:
+        arg_repr = _const_repr(arg_val)
+    except ValueError:
+        # an int beyond the interpreter's limit for int -> str conversion
+        # (Python 3.11+), possibly inside a tuple
+        arg_repr = better_repr(arg_val)
 
     # Float values "nan" and "inf" are not directly representable in Python at least
     # before 3.5 and even there it is via a library constant.
@@ -91,6 +89,17 @@ def get_const_info(const_index, const_list):
     ):
         return arg_val, f"float('{arg_val}')"
     return arg_val, arg_repr
+
+
+def _const_repr(arg_val) -> str:
+    return (
+        prefer_double_quote(repr(arg_val))
+        # (a Python 2 unicode constant prints with its u prefix: not a bare quoted string)
+        if isinstance(arg_val, str) and not isinstance(arg_val, UnicodeForPython3)
+        else better_repr(arg_val)
+        if isinstance(arg_val, (types.CodeType, set, frozenset))
+        else repr(arg_val)
+    )
 
 
 # For compatibility
